@@ -424,6 +424,8 @@ R.contract(
     "QuicConnection._payload_received",
     params={"plain": "bytes"},
     returns="tuple[bool,bool]",
+    # the STOP_SENDING handler's C16 clause is stated for an arbitrary stream id (ghost parameter); the dispatcher uses none of it
+    ghost_args={"QuicConnection._handle_stop_sending_frame": {"gk": "0"}},
     locals={"is_probing": "Optional[bool]"},
     raises={QCE: None, MEM: None},
     raise_attrs=_QCE_ATTRS,
